@@ -438,6 +438,11 @@ var templates = []string{
 	"getpath([%K])?", "setpath([%K]; %K)?", "[splits(.)?]", "contains(.)?", "index(%K)?", "[.[]? as $v | $v + $v]?", "$__loc__ | .line", "[$__loc__.line, (1 | $__loc__.file)]", "path(.[%K])?", "[paths(%A)]?", "select(%A)", "map(%A)?", "map(.)?", "[.[]? | (. as $x | $x)]",
 	// conditionals with constant branches / identity condition
 	"if . then %K else %K end", "if %A then %K else %K end", "if . then %A else %K end", "[if (true, false) then 1 else 2 end]", "if . then . end", "if %A then . else %K end", "if . then 1 elif . then 2 else 3 end", "[.[]? | if . then \"t\" else \"f\" end]", "if %A then 1 else 2 end | . + 1", "[(if . then 1 else 2 end), 3]", "{a: (if . then 1 else [.] end | 2)}",
+	// bindings whose source is ONE instruction (a call of a bytecode function without arguments,
+	// the second use of a builtin, a constant) inside path expressions
+	"def f: .[0]?; [path(f as $x | ., .a?)]", "def f: .a?; try ((f as $x | .b?) |= 1) catch \"E\"", "def f: %A; [path(f as $x | .a?)]?", "def f: .[0]?; del(f as $x | .[1]?)?", "def f: %K; try [path(f as $x | .)] catch \"E\"", "def f: .; [path(f as $x | .a?)]",
+	"[first?, (try path(first as $x | .) catch \"E\")]", "[last?, (try path(last as $x | $x | .) catch \"E\")]", "[..] | length, (try [path(.. as $x | .)] catch \"E\")", "def f: .a?; def g: .b?; [paths(f as $x | g as $y | true)]?", "def f: .[0]?; try ((f as $x | .) = 1) catch \"E\"", "def f: .a?; [path(f as [$x] ?// $x | .)]?",
+	"def f: .[0]?; [path(f | . as $x | .)]?", "def f: .[0]?; reduce path(f as $x | .) as $p (0; . + 1)?", "def f: 1; try [path(f as $x | .)] catch \"E\"", "def f: .a?; pick(f as $x | .b?)?",
 	// bindings (expbegin removal)
 	". as $x | %A", ". as $x | $x", "%A as $x | $x", ". as [$a] | $a?", ". as {a: $a} | $a?", ". as $x | . as $y | [$x, $y]", "path(. as $x | .a)?", "path(%A as $x | .a)?", ". as [$a] ?// $a | $a",
 	// join points followed by constants / pops (peephole)
